@@ -74,7 +74,7 @@ theorem push_push (a b : List Run) (x : Style × Except DecErr (List Run)) : pus
 
 /-- the decoder's loop from state `st` on input `s` with pending text `acc` -/
 def R (cfg : Cfg) (st : Style) (s acc : List Char) : Style × Except DecErr (List Run) :=
-  decodeToks cfg st (tokAux s 0 acc)
+  decodeToks cfg st (tokAux cfg.sgrLazy s 0 acc)
 
 theorem decodeToks_flush (cfg : Cfg) (st : Style) (acc : List Char) (toks : List Token) :
     decodeToks cfg st (flushPlain acc ++ toks) = push (flushRuns st acc) (decodeToks cfg st toks) := by
@@ -91,7 +91,7 @@ theorem decodeToks_flush (cfg : Cfg) (st : Style) (acc : List Char) (toks : List
 
 theorem R_text (cfg : Cfg) (st : Style) (t rest acc : List Char) (ht : ∀ c ∈ t, c ≠ ESC) :
     R cfg st (t ++ rest) acc = R cfg st rest (acc ++ t) := by
-  simp [R, tokAux_plain t rest acc ht]
+  simp [R, tokAux_plain cfg.sgrLazy t rest acc ht]
 
 theorem R_nil (cfg : Cfg) (st : Style) (acc : List Char) :
     R cfg st [] acc = push (flushRuns st acc) (st, .ok []) := by
@@ -100,12 +100,12 @@ theorem R_nil (cfg : Cfg) (st : Style) (acc : List Char) :
 
 /-- an SGR sequence whose parameters read as `codes` and take the style from `st` to `st'` -/
 theorem R_sgr (cfg : Cfg) (st st' : Style) (body rest acc : List Char) (codes : List Nat)
-    (hb : ∀ c ∈ body, c ≠ 'm' ∧ c ≠ '\n') (hne : body ≠ [])
+    (hb : ∀ c ∈ body, isSgrParam c = true) (hne : body ≠ [])
     (hc : sgrCodes cfg body = .ok codes) (ha : applyCodes cfg st codes 0 = (st', none)) :
     R cfg st (sgrOpen body ++ rest) acc = push (flushRuns st acc) (R cfg st' rest []) := by
   have hemp : body.isEmpty = false := by cases body <;> simp at hne ⊢
-  have ht : tokAux (sgrOpen body ++ rest) 0 acc = flushPlain acc ++ .sgr body :: tokAux rest 0 [] := by
-    have := tokAux_sgr body rest acc hb
+  have ht : tokAux cfg.sgrLazy (sgrOpen body ++ rest) 0 acc = flushPlain acc ++ .sgr body :: tokAux cfg.sgrLazy rest 0 [] := by
+    have := tokAux_sgr cfg.sgrLazy body rest acc hb
     simpa [sgrOpen] using this
   unfold R
   rw [ht, decodeToks_flush]
@@ -127,9 +127,9 @@ theorem R_osc8 (cfg : Cfg) (st : Style) (params link rest acc : List Char)
     · exact ⟨(hp c hc).1, (hp c hc).2.1⟩
     · decide
     · exact hl c hc
-  have ht : tokAux ([ESC, ']', '8', ';'] ++ params ++ ';' :: link ++ [ESC, '\\'] ++ rest) 0 acc =
-      flushPlain acc ++ .osc ('8' :: ';' :: (params ++ ';' :: link)) :: tokAux rest 0 [] := by
-    have := tokAux_osc ('8' :: ';' :: (params ++ ';' :: link)) rest acc hbody
+  have ht : tokAux cfg.sgrLazy ([ESC, ']', '8', ';'] ++ params ++ ';' :: link ++ [ESC, '\\'] ++ rest) 0 acc =
+      flushPlain acc ++ .osc ('8' :: ';' :: (params ++ ';' :: link)) :: tokAux cfg.sgrLazy rest 0 [] := by
+    have := tokAux_osc cfg.sgrLazy ('8' :: ';' :: (params ++ ';' :: link)) rest acc hbody
     simpa using this
   have hpart : partitionAt ';' (params ++ ';' :: link) = (params, true, link) := by
     clear ht hbody
